@@ -17,7 +17,7 @@ def writer_table(F, n, adt):
 		r = fu.reach([t], removed_blocks={sb})
 		others = set()
 		for v2, t2 in m.items():
-			if v2 != v:
+			if v2 != v and t2 != t:      # variants grouped in one arm (`A | B => ..`) share the target
 				others |= fu.reach([t2], removed_blocks={sb})
 		excl = r - others
 		vals = []
